@@ -92,7 +92,7 @@ class Report:
     # ---- output
     def finish(self, stage_info, known, broken=None):
         """prints the report; writes evidence; returns exit code"""
-        ev_dir = os.path.join(VERIF, 'evidence')
+        ev_dir = os.environ.get('QV_EVIDENCE_DIR') or os.path.join(VERIF, 'evidence')     # tools/matrix.py points test runs elsewhere
         os.makedirs(os.path.join(ev_dir, 'replay'), exist_ok=True)
         n_inst = sum(len(r.instances) for r in self.rules)
         n_ok = sum(1 for r in self.rules for i in r.instances if i[1])
